@@ -1,6 +1,7 @@
 /* ghost state shared by all packs */
 #include "verif_prelude.h"
-extern int verif_snprintf_truncated, verif_snprintf_register;
+int verif_snprintf_truncated;        /* ghost: some snprintf call could not store its whole output */
+int verif_snprintf_register;         /* harness opt-in: snprintf result buffers enter the known-length table */
 verif_str_t verif_str[VERIF_NSTR];
 int verif_nstr;
 void verif_register_string(const char *p, size_t len){
